@@ -671,7 +671,21 @@ func NewMulBigIntMemoryUsage(a, b *big.Int) MemoryUsage {
 }
 
 func NewModBigIntMemoryUsage(a, b *big.Int) MemoryUsage {
-	// if a < b or |b| == 1:
+	// if |a| < |b| (by magnitude) or |b| == 1:
+	//     |a| + 4
+	// else if |b| < 100:
+	//     |a| + 5
+	//     (quotient: |a| - |b| + 5, plus the remainder, which has up to |b| words)
+	// else:
+	//     recursion_cost = pointer_size + 9 * |b| + floor(|a| / |b|) + 12
+	//     recursion_depth = 2 * BitLen(b)
+	//     3 * |b| + 4 + recursion_cost * recursion_depth
+
+	return newDivModBigIntMemoryUsage(a, b, true)
+}
+
+func NewDivBigIntMemoryUsage(a, b *big.Int) MemoryUsage {
+	// if |a| < |b| (by magnitude) or |b| == 1:
 	//     |a| + 4
 	// else if |b| < 100:
 	//     |a| - |b| + 5
@@ -680,14 +694,23 @@ func NewModBigIntMemoryUsage(a, b *big.Int) MemoryUsage {
 	//     recursion_depth = 2 * BitLen(b)
 	//     3 * |b| + 4 + recursion_cost * recursion_depth
 
+	return newDivModBigIntMemoryUsage(a, b, false)
+}
+
+func newDivModBigIntMemoryUsage(a, b *big.Int, remainder bool) MemoryUsage {
 	aWordLength := len(a.Bits())
 	bWordLength := len(b.Bits())
 
 	var resultWordLength int
-	if a.Cmp(b) < 0 || bWordLength == 1 {
+	// NOTE: compare the magnitudes: the operands might be negative
+	if a.CmpAbs(b) < 0 || bWordLength == 1 {
 		resultWordLength = aWordLength + 4
 	} else if bWordLength < 100 {
 		resultWordLength = aWordLength - bWordLength + 5
+		if remainder {
+			// the remainder has up to |b| words
+			resultWordLength += bWordLength
+		}
 	} else {
 		recursionCost := int(unsafe.Sizeof(uintptr(0))) +
 			9*bWordLength +
@@ -698,10 +721,6 @@ func NewModBigIntMemoryUsage(a, b *big.Int) MemoryUsage {
 	return NewBigIntMemoryUsage(
 		resultWordLength * BigIntWordSize,
 	)
-}
-
-func NewDivBigIntMemoryUsage(a, b *big.Int) MemoryUsage {
-	return NewModBigIntMemoryUsage(a, b)
 }
 
 func NewBitwiseOrBigIntMemoryUsage(a, b *big.Int) MemoryUsage {
